@@ -22,6 +22,8 @@ typedef long long ns_t;
 
 extern ns_t vnow;
 extern __thread int me;               /* thread index, 0 = main */
+extern int simk_in_probe;             /* inside iv_fd_register_try: poll() is a probe */
+extern int simk_wait_limit;           /* more waits than this: End runaway */
 extern int simk_passthrough;          /* 1: real time/blocking, log only */
 
 /* trace */
@@ -44,6 +46,7 @@ struct simk_hooks {
 	int  (*fid_of_ptr)(void *p);          /* 0 = not a harness object */
 	int  (*fid_of_osfd)(int fd);
 	int  (*env_at_quiescence)(int q);     /* returns #ops applied */
+	int  (*env_at_hang)(void);            /* last resort before "hang" */
 	void (*check_touch)(void);
 	int  nfid;
 };
